@@ -221,6 +221,9 @@ package rules
 //@   ensures ret1 == nil ==> (spe.n > old(spe.n) && spe.arg0[spe.n-1] == ctx && spe.arg1[spe.n-1] != nil) || (auth.n > old(auth.n) && auth.ret1[auth.n-1] == nil && step.n == old(step.n) + len(r.sh) + len(r.fi) && forall k int :: old(step.n) <= k && k < step.n ==> step.ret0[k] == nil || continueOnError(step.arg0[k]))
 //@   ensures forall k int :: old(step.n) <= k && k < step.n && k - old(step.n) < len(r.sh) ==> step.arg0[k] == r.sh[k - old(step.n)]
 //@   ensures ret0 != nil ==> auth.n > old(auth.n) && auth.ret1[auth.n-1] == nil && step.n == old(step.n) + len(r.sh) + len(r.fi)
+// C08 (and C15: "preserving the percent-encoding of the path"): the raw path of the request is dropped
+// (so that the decoded one is forwarded) only in the mode that asks for it
+//@   assert at store RawPath#1@82a628b7.1: old(r.slashesHandling) == config2.EncodedSlashesOn && stored == ""
 
 // a request is executed only against a rule the repository returned; no rule, no execution.
 //@ func (*ruleExecutor).Execute
